@@ -198,7 +198,7 @@ Proof. cbv zeta. repeat split; vm_compute; reflexivity. Qed.
 Print Assumptions C12_nonvacuous_bytes.
 
 (* non-vacuity of the error branch: a truncated 4-byte character (error at the flush), an invalid continuation byte (error at
-   the read that carries it), a lone continuation byte, an overlong form, a surrogate; latin-1 reads the same bytes as text *)
+   the read that carries it), a lone continuation byte, an overlong form, a surrogate; latin-1 reads any bytes as text *)
 Example C12_nonvacuous_invalid :
   let c := {| c_rfc := false; c_comment := None; c_header := false; c_enc := EncUtf8; c_modifier := None |} in
   decode_bytes CUtf8 [97; 10; 240; 159; 152]%N = None /\
@@ -206,6 +206,10 @@ Example C12_nonvacuous_invalid :
   text_layer_trace CUtf8 [[97; 10; 240; 159]; [40]]%N = ([([97; LF], false, 2%nat)], false)%N /\
   map (fun b => decode_bytes CUtf8 b) [[128]; [192; 175]; [237; 160; 128]]%N = [None; None; None] /\
   run_py_bytes (lite_split (Some [COMMA])) c 1 CUtf8 [[97; 10; 240; 159]; [152]]%N = BIOError /\
-  text_layer CLatin1 [[239; 187]; [191; 13]; []; [13]; [10; 255]]%N = Some [[239; 187]; [191]; []; [LF]; [LF; 255]; []]%N.
+  text_layer CLatin1 [[239; 187]; [191; 13]; []; [13]; [10; 255]]%N = Some [[239; 187]; [191]; []; [LF]; [LF; 255]; []]%N /\
+  (* CPython's deferred error: a read ending in ED A0 (half of an encoded surrogate) returns, the next non-empty read raises *)
+  text_layer_trace CUtf8 [[97; 237; 160]; []; [98]]%N = ([([97], false, 1%nat); ([], false, 1%nat)], false)%N /\
+  text_layer_trace CUtf8 [[97; 237; 160]]%N = ([([97], false, 1%nat)], false)%N /\
+  text_layer_trace CUtf8 [[97; 237; 160; 128]]%N = ([], false).
 Proof. cbv zeta. repeat split; vm_compute; reflexivity. Qed.
 Print Assumptions C12_nonvacuous_invalid.
